@@ -255,7 +255,7 @@ def cmd_check(prop, tier, seed, only=None, jobs=None):
         role = None
         if c.bounded_obligations(r["case_params"]):
             role = "stand-in"
-        elif any(g["outcome"] in ("out-of-subset", "needs-contract", "path-limit") for g in r["generation_errors"]):
+        elif any(g["outcome"] in ("out-of-subset", "needs-contract", "path-limit", "time-limit") for g in r["generation_errors"]):
             role = "fallback"
         if role:
             chosen.add((r["contract"], r["case"]))
@@ -310,7 +310,7 @@ def cmd_check(prop, tier, seed, only=None, jobs=None):
                 # "discharged symbolically but false natively" is a contradiction only if the symbolic pass covered the whole
                 # case.  A case with generation failures (paths that left the modelled subset) was proved only where it could be
                 # generated: a native counterexample there is what the fallback is for -- an ordinary violation.
-                fully_covered = not any(g["outcome"] in ("out-of-subset", "needs-contract", "path-limit", "engine-crash") for g in r["generation_errors"])
+                fully_covered = not any(g["outcome"] in ("out-of-subset", "needs-contract", "path-limit", "engine-crash", "time-limit") for g in r["generation_errors"])
                 if cl in proved_here and fully_covered:
                     tierb_errors.append("SOUNDNESS: %s[%s].%s was discharged symbolically but is FALSE on the real code (replay=%s)"
                                         % (r["contract"], r["case"], cl, path))
@@ -333,6 +333,11 @@ def cmd_check(prop, tier, seed, only=None, jobs=None):
     floor = entry.get("min_obligations", 1)
     if obligations < floor and not only:
         engine_errors.append("only %d obligations generated (floor %d)" % (obligations, floor))
+    # a property decided by bounded stand-ins has its own vacuity floor: the stand-ins must actually have evaluated inputs
+    bfloor = entry.get("min_bounded_evaluations", 0)
+    bevals = sum(v["evaluations"] for (cn, role), v in tierb.items() if role == "stand-in")
+    if bevals < bfloor and not only:
+        engine_errors.append("only %d bounded evaluations made by the stand-ins (floor %d)" % (bevals, bfloor))
 
     for r, g in generr:
         if g["outcome"] == "engine-crash":
